@@ -123,8 +123,9 @@ def msgs_of(raw):
     return [r[1] for r in raw if r[0] == 'msg']
 
 
-def oracle(mods, case, ctor_exc, raws):
-    """Returns (key, why) if the property fails on this trace, else None."""
+def oracle(mods, case, ctor_exc, raws, light=False):
+    """Returns (key, why) if the property fails on this trace, else None.
+    light: for SOCKS5 `raws` holds only the `05 00` dialogue."""
     proto, host, port, auth = case
     sc_, reason = scope(case)
     if sc_ is None:
@@ -147,7 +148,7 @@ def oracle(mods, case, ctor_exc, raws):
         return 'c16:expressible-rejected', f'constructor raised {sc.exc_name(ctor_exc)}'
     for raw in raws:
         for r in raw:
-            if r[0] == 'raise' and not (proto == '5' and raw is raws[-1] and auth is None):
+            if r[0] == 'raise' and not (proto == '5' and not light and raw is raws[-1] and auth is None):
                 return 'c16:expressible-rejected', f'next_message raised {sc.exc_name(r[1])}'
     user = auth[0].encode() if auth is not None else b''
     if proto in ('4', '4a'):
@@ -170,7 +171,7 @@ def oracle(mods, case, ctor_exc, raws):
     methods = [0, 2] if auth is not None else [0]
     atyp, addr = expected_connect(host, port)
     want_conn = dict(ver=5, cmd=1, rsv=0, atyp=atyp, addr=addr, port=port, rest=b'')
-    for di, raw in enumerate(raws):
+    for di, raw in enumerate(raws, 1 if light else 0):
         m = msgs_of(raw)
         if not m:
             return 'c16:socks5-greeting', 'no greeting'
@@ -208,10 +209,11 @@ def oracle(mods, case, ctor_exc, raws):
 DIALOGUES5 = ([], [b'\x05\x00'], [b'\x05\x02', b'\x01\x00'])
 
 
-def impl_case(mods, case, stub=False):
-    """Returns (text in the driver's output format, ctor exception, raw dialogues)."""
+def impl_case(mods, case, stub=False, light=False):
+    """Returns (text in the driver's output format, ctor exception, raw dialogues).
+    light: SOCKS5 runs only the `05 00` dialogue (greeting + CONNECT)."""
     proto = case[0]
-    dialogues = DIALOGUES5 if proto == '5' else ([],)
+    dialogues = (DIALOGUES5[1:2] if light else DIALOGUES5) if proto == '5' else ([],)
     outs, raws = [], []
     for chunks in dialogues:
         try:
@@ -441,32 +443,32 @@ def _init(repo):
 
 
 def _impl_batch(args):
-    cases, stub = args
+    cases, stub, light = args
     res = []
     for case in cases:
-        text, ctor_exc, raws = impl_case(_mods, case, stub)
-        bad = oracle(_mods, case, ctor_exc, raws) if not stub else None
+        text, ctor_exc, raws = impl_case(_mods, case, stub, light)
+        bad = oracle(_mods, case, ctor_exc, raws, light) if not stub else None
         res.append((text, bad, scope(case)[0] if not stub else 'stub'))
     return res
 
 
-def run_impl(ctx, cases, stub):
+def run_impl(ctx, cases, stub, light=False):
     n = len(cases)
     if n < 30000 or not ctx.deep:
         _init(ctx.repo)
-        return _impl_batch((cases, stub))
+        return _impl_batch((cases, stub, light))
     nproc = min(8, os.cpu_count() or 1)
     size = max(5000, n // (nproc * 3))
-    jobs = [(cases[i:i + size], stub) for i in range(0, n, size)]
+    jobs = [(cases[i:i + size], stub, light) for i in range(0, n, size)]
     with Pool(nproc, initializer=_init, initargs=(ctx.repo,)) as pool:
         parts = pool.map(_impl_batch, jobs)
     return [r for p in parts for r in p]
 
 
-def evaluate(ctx, cases, res, scope_name, stub=False):
+def evaluate(ctx, cases, res, scope_name, stub=False, light=False):
     cases = list(cases)
-    outs = run_impl(ctx, cases, stub)
-    model = ctx.model([sc.enc_case(c) for c in cases])
+    outs = run_impl(ctx, cases, stub, light)
+    model = ctx.model([sc.enc_case(c) + (' d1' if light else '') for c in cases])
     for i, (case, (text, bad, sc_)) in enumerate(zip(cases, outs)):
         if bad:
             res.violation(bad[0], sc.case_json(case), bad[1], impl=text[:300])
@@ -518,7 +520,8 @@ def run(ctx):
             evaluate(ctx, port_cases(hs), res, 'every_port')
         all_ports = True
     else:
-        evaluate(ctx, port_cases(hosts), res, 'every_port')
+        # SOCKS5: greeting + CONNECT only (the dialogue that carries the port)
+        evaluate(ctx, port_cases(hosts), res, 'every_port', light=True)
         all_ports = True
     # (c) seeded structured generator
     ngen = 150000 if ctx.deep else 12000
